@@ -228,7 +228,10 @@ def fill(b, st, decl, with_method=True, after_init=False, method_obj=None):
         for X, (r, c) in zip(b.xsyms, xb):
             es = [mx(b, decl['rhs'][i0 + k]) for k in range(r * c)]
             ocp.set_der(X, ca.reshape(ca.vertcat(*es), r, c)); i0 += r * c
-    for i, e in enumerate(decl['rhs'] if not xb else []):
+    order = list(enumerate(decl['rhs'] if not xb else []))
+    # with derivative scales the derivatives are declared last state first (the order of set_der calls means nothing)
+    if any(fr(s_['dscale']) != 1 for s_ in decl['states']): order.reverse()
+    for i, e in order:
         if decl['dyn'] == 'next':
             ocp.set_next(b.x[i], mx(b, e))
         else:
@@ -303,13 +306,18 @@ def build_multi(md, solver='ipopt'):
             # declared in this order on purpose: the variable before the parameter
             ocp._verif_pw = ocp.variable(); ocp._verif_pq = ocp.parameter()
             ocp.set_value(ocp._verif_pq, fl(md['stages'][0]['pq']))
+        if md.get('late') and solver:
+            ocp.solver(solver, {"print_time": False, "ipopt": {"print_level": 0}} if solver == 'ipopt' else {})
         if md.get('clone'):
             d1 = md['stages'][0]
             tb = Built(); tb.ocp = ocp
             tmpl = Stage(t0=horizon(d1['t0']), T=horizon(d1['T']))
             fill(tb, tmpl, d1)
             B.template = tmpl; B.template_built = tb
-            for d in md['stages']:
+            for si_, d in enumerate(md['stages']):
+                if md.get('late') and si_ == len(md['stages']) - 1:
+                    from observe import quiet as _q
+                    _q(B.parts[0].stage.sample, B.parts[0].x[0], grid='control')      # the stages so far are transcribed once
                 st = ocp.stage(tmpl, t0=horizon(d['t0']), T=horizon(d['T']))
                 p = Built(); p.ocp = ocp; p.stage = st; p.decl = d
                 p.x, p.u, p.z, p.p, p.v = tb.x, tb.u, tb.z, tb.p, tb.v
@@ -320,7 +328,10 @@ def build_multi(md, solver='ipopt'):
         else:
             import json as _json
             shared = {}      # users commonly hand the same method instance to several stages
-            for d in md['stages']:
+            for si_, d in enumerate(md['stages']):
+                if md.get('late') and si_ == len(md['stages']) - 1:
+                    from observe import quiet as _q
+                    _q(B.parts[0].stage.sample, B.parts[0].x[0], grid='control')
                 st = ocp.stage(t0=horizon(d['t0']), T=horizon(d['T']))
                 p = Built(); p.ocp = ocp
                 key = _json.dumps(d['method'], sort_keys=True)
@@ -336,7 +347,7 @@ def build_multi(md, solver='ipopt'):
             target.subject_to(expr, meta={"stacktrace": [{"cid": c['cid']}]})
         for e in md['pobj']:
             ocp.add_objective(mx_parent(B.parts, e))
-        ocp.solver(solver, {"print_time": False, "ipopt": {"print_level": 0}})
+        if not md.get('late'): ocp.solver(solver, {"print_time": False, "ipopt": {"print_level": 0}})
     return B
 
 
